@@ -284,4 +284,17 @@ fn main() {
             }
         }
     });
+    run("S23 side effects: a tagged import that was deleted again (C23)", || {
+        use wirm::ir::module::side_effects::InjectType;
+        let w = wat::parse_str(r#"(module (func))"#).unwrap();
+        let mut m = Module::parse(&w, false).unwrap();
+        let ty = m.types.add_func_type(&[], &[], None);
+        let (fid, _iid) = m.add_import_func_with_tag("env".into(), "gone".into(), ty, wirm::ir::types::Tag::new(vec![1, 2, 3]));
+        m.delete_func(fid);
+        let (_f2, _i2) = m.add_import_func_with_tag("env".into(), "kept".into(), ty, wirm::ir::types::Tag::new(vec![4]));
+        let se = m.pull_side_effects();
+        let n = se.get(&InjectType::Import).map(|v| v.len()).unwrap_or(0);
+        println!("import records: {} (expected 1: only `kept` is in the encoded module)", n);
+        show("S23", &m.encode());
+    });
 }
